@@ -75,7 +75,12 @@ def contractNext (c : Chain) (dst : Bytes) : Nat := if c.cseq dst = 0 then 1 els
 /-- A chain on which nothing has been sent yet. `seqs` = counters explicitly initialised (to 1 by client set-up). -/
 def fresh (self : Bytes) (clients : List Bytes) (seqs : List (Bytes × Nat)) : Chain :=
   { self := self, clients := fun n => clients.contains n,
-    nextSeq := fun d => (seqs.find? (fun e => e.1 == d)).map (·.2), cseq := fun _ => 0,
+    nextSeq := fun d => (seqs.find? (fun e => e.1 == d)).map (·.2),
+    -- a counter explicitly stored as 1 is the client set-up default (contract slot still unset); any other value is a
+    -- counter of a chain that has already sent `n-1` packets to `d`: both sides hold `n`
+    cseq := fun d => match seqs.find? (fun e => e.1 == d) with
+      | some e => if e.2 = 1 then 0 else e.2
+      | none => 0,
     commits := fun _ => none, receipts := fun _ => false, escrow := fun _ => 0, sent := [], acked := [] }
 
 /-- `Packet.ValidateBasic`. -/
@@ -83,7 +88,7 @@ def validateBasic (p : Packet) : Bool :=
   !p.src.isEmpty && !p.dst.isEmpty && p.src != p.dst && p.seq != 0 && p.hasData
 
 inductive SendErr where
-  | invalid | notSelf | noClient | wrongSeq
+  | invalid | notSelf | noClient | wrongSeq | setSeqFailed
   deriving DecidableEq, Repr
 
 /-- `Keeper.SendPacket`, in the order of the code. -/
@@ -92,6 +97,13 @@ def sendPacket (env : Env) (c : Chain) (p : Packet) : Except SendErr Chain :=
   else if p.src ≠ c.self then .error .notSelf
   else if !c.clients p.dst then .error .noClient
   else if p.seq ≠ chainNext c p.dst then .error .wrongSeq
+  -- `nextSequenceSend++` on a uint64, then `CallPacket("setSequence", dst, next)`. The packet contract accepts the
+  -- new value only if it is its own counter + 1 (raw `sequences[dst] + 1`, or view + 1 when the slot is unset;
+  -- observed on the byte code: with `sequences = 7` only 8 is accepted, with the slot unset 1 and 2). At
+  -- `seq = 2^64 - 1` the Go increment wraps to 0, which the contract rejects: the send fails and the whole
+  -- transaction is reverted — the counter can never wrap, it stays at 2^64 - 1 and that destination is closed.
+  else if p.seq + 1 ≥ 2 ^ 64 then .error .setSeqFailed
+  else if ¬ (p.seq = c.cseq p.dst ∨ p.seq = contractNext c p.dst) then .error .setSeqFailed
   else .ok { c with
     nextSeq := upd c.nextSeq p.dst (some (p.seq + 1)),
     cseq := upd c.cseq p.dst (p.seq + 1),                 -- CallPacket("setSequence", dst, next+1)
@@ -240,6 +252,7 @@ contract storage —, clients, receipts). Unlike `upgrade` nothing restarts: the
 def restart (c : Chain) : Chain × Res := (c, .ok)
 
 inductive Op where
+  | discarded   -- any handler run on a context that is dropped (Simulate / CheckTx / dry run / failed multi-message tx)
   | restart
   | upgrade
   | tx (vmOk : Bool) (logs : List Log)
@@ -248,6 +261,7 @@ inductive Op where
   | createClient (name : Bytes)
 
 def step (cfg : Cfg) (env : Env) (c : Chain) : Op → Chain × Res
+  | .discarded => (c, .ok)
   | .restart => restart c
   | .upgrade => upgrade c
   | .tx v ls => applyTx env c v ls
